@@ -23,7 +23,7 @@ def pick(rnd, i):
 CHECK = ComponentCheck("C27", pick, drain=0, embedded=(("CircularAllocator",), ("basicfifo", "serializer", "pipeline")),
                        suite=(("CircularAllocator",), ("test/lib/test_allocators.py", "test/lib/test_fifo.py", "test/lib/test_pipeline.py")))
 shards, run_shard = CHECK.shards, CHECK.run_shard
-RULE = ("[plus a second workload: CircularAllocator instances embedded in BasicFifo (driven directly, inside Serializer and inside pipelines), watched passively (vf/passive.py) against the same reference model: readiness, results and state registers every cycle, conditions embedded:*] histories = hostile random alloc(count)/free(count)/clear sequences for entries in {1,2,3,5,6,8,16}, max_alloc/max_free 1-4; with validation "
+RULE = ("[in 30% of the histories every provided exclusive method has a second, competing caller transaction: a request is issued by the main caller, the rival or both; condition exclusive_method_serves_at_most_one_caller_per_cycle] [plus a second workload: CircularAllocator instances embedded in BasicFifo (driven directly, inside Serializer and inside pipelines), watched passively (vf/passive.py) against the same reference model: readiness, results and state registers every cycle, conditions embedded:*] histories = hostile random alloc(count)/free(count)/clear sequences for entries in {1,2,3,5,6,8,16}, max_alloc/max_free 1-4; with validation "
         "counts are unconstrained (overflowing/underflowing calls must be refused), without validation the stimulus respects the documented "
         "precondition; start/end/allocated registers compared every cycle; non-trivial distinct case = (config, tags among alloc+free, pointer "
         "wrap, fills, empties, clear racing)")
